@@ -28,7 +28,7 @@ Definition payload_eqb (a b : payload) : bool :=
 Definition uri_eqb (a b : uri) : bool :=
   match a, b with
   | UApp x, UApp y => x =? y
-  | URuntime, URuntime | UInvalidPayload, UInvalidPayload | UPayloadExceeded, UPayloadExceeded => true
+  | URuntime, URuntime | UInvalidPayload, UInvalidPayload | UPayloadExceeded, UPayloadExceeded | UTypeCheck, UTypeCheck => true
   | _, _ => false
   end.
 Definition wmsg_eqb (a b : wmsg) : bool :=
